@@ -18,14 +18,14 @@ func init() {
 	register(&Property{
 		ID:    "C04",
 		Level: "other",
-		Explanation: "Structural necessary conditions of the ARPA address codec (netutil/reversed.go), decided on SSA: (R1) the text tested against the in-addr.arpa / ip6.arpa suffixes " +
+		Explanation: "Decided exactly by abstract evaluation into BDDs (no execution): IPToReversedAddr equals the canonical name for all 2^32 / 2^128 addresses; ipv4FromReversed and ipv6FromReversed accept exactly the canonical address parts and decode them; IPFromReversedAddr(IPToReversedAddr(a)) == a for every address in every letter case, with and without a trailing dot. Structural conditions, decided on SSA, for the dispatcher in front of the decoders and as fall-back when a function leaves the evaluator's grammar: (R1) the text tested against the in-addr.arpa / ip6.arpa suffixes " +
 			"derives from the argument only through identity, slicing, TrimSuffix(\".\") and an ASCII-only lowering helper whose body is verified (changes only bytes in 'A'..'Z', by +32); " +
 			"strings.ToLower / unicode folding map non-ASCII letters (U+0130) onto suffix letters; (R2) in ipv6FromReversed every byte position 4i+{0,1,2,3}, i < 16, of the fixed-length name is " +
 			"read and leads to a rejection when it is not a hex digit resp. a dot, and the function runs only when len(name) == 4*16-1+len(suffix); (R3) the IPv4 part is parsed by netip.ParseAddr, " +
 			"rejected unless Is4(), and reversed by the permutation k -> 3-k; (R4) encoder and decoder tables agree: per byte low nibble then high nibble in base 16 from the last byte to the first vs. " +
 			"offset 0 = low, offset 2 = high into byte 15-i; decimal octets by strconv.Itoa vs netip's decimal parser; the same suffix constants on both sides. " +
 			"Not decided: the round trip as a statement about all 2^32 + 2^128 values.",
-		Technique: "SSA provenance (whitelisted transformations), affine index-set coverage of a fixed-length scan, writer/reader table agreement",
+		Technique: "exact abstract evaluation of go/ssa into ROBDDs (encoder, IPv4/IPv6 decoders and the whole round trip over every spelling, as Boolean functions of the address bits / name bytes, compared with the codec) + SSA provenance rules for the dispatcher (suffix tests, ASCII lowering); structural table/index-set rules as fall-back",
 		Note:      "Trusted: go/ssa, netip.ParseAddr, strconv.Itoa/FormatUint, strings.HasSuffix/TrimSuffix.",
 		DesignRef: "DESIGN.md section 4, C04",
 		Run:       runC04,
@@ -33,13 +33,13 @@ func init() {
 	register(&Property{
 		ID:    "C05",
 		Level: "other",
-		Explanation: "Structural and arithmetic necessary conditions of ARPA prefix decoding/extraction: (R1) ASCII-only folding before the suffix tests (as C04.R1) in PrefixFromReversedAddr and " +
+		Explanation: "Decided exactly by abstract evaluation into BDDs (no execution): subnetFromReversedV4 / subnetFromReversedV6 accept exactly k <= 4 octet labels resp. k <= 32 nibble labels in front of the suffix, for every name length, and return the prefix of the grammar; indexFirstV4Label / indexFirstV6Label return the start of the longest label-aligned run of address labels; isIPv4Label is the octet predicate. Structural and arithmetic conditions for the dispatcher and the extractor, and as fall-back: (R1) ASCII-only folding before the suffix tests (as C04.R1) in PrefixFromReversedAddr and " +
 			"ExtractReversedAddr; (R2) label alignment: at the point where ExtractReversedAddr cuts the embedded name, every abstract state of the relational interpreter entails that the domain is exactly " +
 			"the root suffix or has a '.' right before it (byte fact), and the right-to-left label scanners test the byte before each candidate label; (R3) no leading zero is accepted: at the store of an " +
 			"octet every abstract state entails len(label) == 1 or label[0] != '0'; the octet parser's bit size matches the byte conversion; (R4) arithmetic skeleton: prefix length 8*l resp. 4*l with l " +
 			"incremented once per consumed label, the address is a zeroed local written only at ip[l] resp. ip[l/2] (high nibble for even l), more than 3 dots / more than 71 bytes are rejected before the " +
 			"partial decoders run. Not decided: the exact accepted language of the label scanners (value level).",
-		Technique: "abstract interpretation with byte facts (asserted obligations) + SSA shape rules for the arithmetic skeleton",
+		Technique: "exact abstract evaluation of go/ssa into ROBDDs (both prefix decoders for every name length, both index scanners, the octet predicate, compared with the grammar as Boolean functions of the name bytes) + abstract interpretation with byte facts (asserted obligations) and SSA provenance rules for the dispatcher and the extractor; structural skeleton rules as fall-back",
 		Note:      "Trusted: go/ssa, /verif/sa/lincon, strconv.ParseUint, strings.LastIndexByte/Count.",
 		DesignRef: "DESIGN.md section 4, C05",
 		Run:       runC05,
